@@ -5,6 +5,12 @@ package larking
 // addRule / match / parseParam / params.set run unchanged, natively and under the engine.
 
 import (
+	"context"
+	"errors"
+	"io"
+
+	"google.golang.org/grpc/stats"
+
 	"google.golang.org/protobuf/proto"
 	"google.golang.org/protobuf/reflect/protoreflect"
 )
@@ -188,4 +194,202 @@ func schemaOut() *fakeMD {
 		strField("r"),
 		&fakeFD{name: "sub", kind: protoreflect.MessageKind, msg: sub},
 	)
+}
+
+// ---------------------------------------------------------------------------------------------
+// Fake message + recording codec + fake compressor.
+
+type fakeList struct {
+	protoreflect.List
+	items []protoreflect.Value
+}
+
+func (l *fakeList) Append(v protoreflect.Value)  { l.items = append(l.items, v) }
+func (l *fakeList) Len() int                     { return len(l.items) }
+func (l *fakeList) Get(i int) protoreflect.Value { return l.items[i] }
+
+// fakeMsg implements proto.Message and protoreflect.Message over a fakeMD.
+type fakeMsg struct {
+	protoreflect.Message
+	md      *fakeMD
+	vals    map[string]protoreflect.Value
+	subs    map[string]*fakeMsg
+	lists   map[string]*fakeList
+	raw     []byte // bytes handed to the recording codec's Unmarshal
+	rawSet  int    // number of Unmarshal calls on this message
+	payload []byte // bytes the recording codec's Marshal produces for this message
+	sets    int    // number of Set calls (routing / query params)
+}
+
+func newFakeMsg(md *fakeMD) *fakeMsg {
+	return &fakeMsg{md: md, vals: map[string]protoreflect.Value{}, subs: map[string]*fakeMsg{}, lists: map[string]*fakeList{}}
+}
+
+func (m *fakeMsg) ProtoReflect() protoreflect.Message         { return m }
+func (m *fakeMsg) Interface() protoreflect.ProtoMessage       { return m }
+func (m *fakeMsg) Descriptor() protoreflect.MessageDescriptor { return m.md }
+func (m *fakeMsg) IsValid() bool                              { return m != nil }
+func (m *fakeMsg) Has(fd protoreflect.FieldDescriptor) bool {
+	n := string(fd.Name())
+	_, a := m.vals[n]
+	_, b := m.subs[n]
+	_, c := m.lists[n]
+	return a || b || c
+}
+func (m *fakeMsg) Set(fd protoreflect.FieldDescriptor, v protoreflect.Value) {
+	m.sets++
+	m.vals[string(fd.Name())] = v
+}
+func (m *fakeMsg) Get(fd protoreflect.FieldDescriptor) protoreflect.Value {
+	n := string(fd.Name())
+	if v, ok := m.vals[n]; ok {
+		return v
+	}
+	if s, ok := m.subs[n]; ok {
+		return protoreflect.ValueOfMessage(s)
+	}
+	f := fd.(*fakeFD)
+	switch f.kind {
+	case protoreflect.StringKind:
+		return protoreflect.ValueOfString("")
+	case protoreflect.BytesKind:
+		return protoreflect.ValueOfBytes(nil)
+	}
+	return protoreflect.Value{}
+}
+func (m *fakeMsg) Mutable(fd protoreflect.FieldDescriptor) protoreflect.Value {
+	f := fd.(*fakeFD)
+	n := f.name
+	if f.list {
+		l, ok := m.lists[n]
+		if !ok {
+			l = &fakeList{}
+			m.lists[n] = l
+		}
+		return protoreflect.ValueOfList(l)
+	}
+	if f.msg == nil {
+		panic("verif fake: Mutable on a scalar field " + n)
+	}
+	s, ok := m.subs[n]
+	if !ok {
+		s = newFakeMsg(f.msg)
+		m.subs[n] = s
+	}
+	return protoreflect.ValueOfMessage(s)
+}
+
+func (m *fakeMsg) str(name string) string {
+	if v, ok := m.vals[name]; ok {
+		return v.String()
+	}
+	return ""
+}
+
+// fakeCodec records what it is asked to decode and produces the message's preset payload.
+type fakeCodec struct {
+	name      string
+	unmarshal [][]byte // every payload handed to Unmarshal, in order
+	marshals  int
+	failNext  bool
+}
+
+var errVfCodec = errors.New("verif: injected codec failure")
+
+func (c *fakeCodec) Name() string { return c.name }
+func (c *fakeCodec) Marshal(v interface{}) ([]byte, error) {
+	return c.MarshalAppend(nil, v)
+}
+func (c *fakeCodec) MarshalAppend(b []byte, v interface{}) ([]byte, error) {
+	c.marshals++
+	m, ok := v.(*fakeMsg)
+	if !ok {
+		return nil, errVfCodec
+	}
+	return append(b, m.payload...), nil
+}
+func (c *fakeCodec) Unmarshal(data []byte, v interface{}) error {
+	cp := make([]byte, len(data))
+	copy(cp, data)
+	c.unmarshal = append(c.unmarshal, cp)
+	if c.failNext {
+		return errVfCodec
+	}
+	if m, ok := v.(*fakeMsg); ok {
+		m.raw = cp
+		m.rawSet++
+	}
+	return nil
+}
+
+// fakeStreamCodec adds the framing of a real stream codec to the recording codec.
+type fakeStreamCodec struct {
+	*fakeCodec
+	framing StreamCodec
+}
+
+func (c fakeStreamCodec) ReadNext(b []byte, r io.Reader, limit int) ([]byte, int, error) {
+	return c.framing.ReadNext(b, r, limit)
+}
+func (c fakeStreamCodec) WriteNext(w io.Writer, b []byte) (int, error) {
+	return c.framing.WriteNext(w, b)
+}
+
+// fakeCompressor "decompresses" to preset bytes of any length: gzip itself is outside every claim,
+// its documented contract (output length unrelated to input length) is what matters for limits.
+type fakeCompressor struct {
+	out       []byte // what Decompress yields
+	compCalls int
+}
+
+type vfNopWriteCloser struct{ w io.Writer }
+
+func (n vfNopWriteCloser) Write(p []byte) (int, error) { return n.w.Write(p) }
+func (n vfNopWriteCloser) Close() error                { return nil }
+
+func (c *fakeCompressor) Name() string { return "fake" }
+func (c *fakeCompressor) Compress(w io.Writer) (io.WriteCloser, error) {
+	c.compCalls++
+	return vfNopWriteCloser{w}, nil
+}
+func (c *fakeCompressor) Decompress(r io.Reader) (io.Reader, error) {
+	return &vfWholeReader{data: c.out}, nil
+}
+
+// fakeStats records the stats events of an RPC.
+type fakeStats struct {
+	events []string
+	inLen  []int
+	outLen []int
+	endErr error
+	ends   int
+}
+
+func (s *fakeStats) TagRPC(ctx context.Context, info *stats.RPCTagInfo) context.Context {
+	s.events = append(s.events, "tag")
+	return ctx
+}
+func (s *fakeStats) TagConn(ctx context.Context, info *stats.ConnTagInfo) context.Context { return ctx }
+func (s *fakeStats) HandleConn(context.Context, stats.ConnStats)                          {}
+func (s *fakeStats) HandleRPC(ctx context.Context, st stats.RPCStats) {
+	switch e := st.(type) {
+	case *stats.InHeader:
+		s.events = append(s.events, "inheader")
+	case *stats.Begin:
+		s.events = append(s.events, "begin")
+	case *stats.InPayload:
+		s.events = append(s.events, "inpayload")
+		s.inLen = append(s.inLen, e.Length)
+	case *stats.OutHeader:
+		s.events = append(s.events, "outheader")
+	case *stats.OutPayload:
+		s.events = append(s.events, "outpayload")
+		s.outLen = append(s.outLen, e.Length)
+	case *stats.OutTrailer:
+		s.events = append(s.events, "outtrailer")
+	case *stats.End:
+		s.events = append(s.events, "end")
+		s.endErr = e.Error
+		s.ends++
+	}
 }
